@@ -666,6 +666,30 @@ static void run_case(CaseCtx& c)
             solves++;
             sol[j] = x;
             measure(x, j, j == 0);
+            if (j == 0 && rng.coin(0.3)) {
+                // a solver of the same dimension that holds (and may have factorised) another SPD system takes over this
+                // one by copy assignment between two solves: it must then solve exactly like the source
+                SymmetricTridiagonalSolver<double> T(A.n);
+                T.is_cyclic(A.cyclic);
+                for (int i = 0; i < A.n; i++)
+                    T.main_diagonal(i) = 2.0 * A.d[i]; // A + diag(A) is SPD as well
+                for (int i = 0; i + 1 < A.n; i++)
+                    T.sub_diagonal(i) = A.s[i];
+                if (A.cyclic)
+                    T.cyclic_corner_element() = A.c;
+                std::vector<double> tt1(A.n), tt2(A.n);
+                if (rng.coin(0.6)) {
+                    std::vector<double> z = rhs[0];
+                    T.solveInPlace(z.data(), tt1.data(), tt2.data());
+                }
+                T = S;
+                std::vector<double> y = rhs[0];
+                T.solveInPlace(y.data(), tt1.data(), tt2.data());
+                bool same = std::memcmp(y.data(), sol[0].data(), sizeof(double) * A.n) == 0;
+                c.obs.require("repeat_identical", same, kbase + "/copy-assigned-over-another-system");
+                if (!same)
+                    note_worst(INFINITY, "repeat_identical", 0);
+            }
             if (j == 0 && immediate) { // same object, same rhs, directly after the factorising solve
                 std::vector<double> y = rhs[0];
                 solve(y);
